@@ -47,6 +47,11 @@ pub enum Family {
     HeaderOctets,
     ChunkSequences,
     StreamLevel,
+    /// large containers: flips in the first / middle / last octets only
+    SparseFlips,
+    /// SEIPDv2 containers of several hundred chunks: two chunks exchanged / one repeated in the
+    /// place of another, at distances that are multiples of 256 (and neighbours)
+    ChunkSwaps,
 }
 
 #[derive(Clone, Debug, Hash, Serialize, Deserialize)]
@@ -78,7 +83,13 @@ fn key_for(c: &Container) -> Vec<u8> {
 /// inner packet stream: one literal data packet whose total encoded length is `inner_len`
 fn inner(inner_len: usize, variant: u8) -> (Vec<u8>, Vec<u8>) {
     // literal body = 'b', name len 0, date 0 (4) + data
-    let hdr = if inner_len >= 192 + 2 { 3 } else { 2 };
+    let hdr = if inner_len >= 8384 + 6 {
+        6
+    } else if inner_len >= 192 + 2 {
+        3
+    } else {
+        2
+    };
     let n = inner_len.saturating_sub(hdr + 6);
     let data: Vec<u8> = (0..n)
         .map(|i| (i as u8).wrapping_mul(31).wrapping_add(variant))
@@ -427,6 +438,43 @@ fn tampers(c: &Container, family: Family) -> Vec<Tampered> {
             };
             rec(&units, maxlen, &mut seq, &mut emit);
         }
+        Family::SparseFlips => {
+            let n = body.len();
+            let mut pos: Vec<usize> = (0..n.min(24)).collect();
+            pos.push(n / 2);
+            pos.extend(n.saturating_sub(24)..n);
+            pos.sort();
+            pos.dedup();
+            for p in pos {
+                for bit in [0u8, 7] {
+                    let mut b = body.clone();
+                    b[p] ^= 1 << bit;
+                    out.push(mk(format!("flip bit {bit} of body octet {p}/{n}"), b, None));
+                }
+            }
+        }
+        Family::ChunkSwaps => {
+            if !c.v2 {
+                return out;
+            }
+            let unit = (1usize << (c.chunk as usize + 6)) + 16;
+            let region = 36..body.len() - 16;
+            let full = (region.end - region.start) / unit;
+            let at = |i: usize| 36 + i * unit..36 + (i + 1) * unit;
+            for (i, j) in [(0usize, 256usize), (1, 257), (3, 259), (0, 512), (255, 256), (0, 1), (256, 257), (0, 255), (0, 257)] {
+                if j >= full {
+                    continue;
+                }
+                let mut b = body.clone();
+                let (ci, cj) = (body[at(i)].to_vec(), body[at(j)].to_vec());
+                b[at(i)].copy_from_slice(&cj);
+                b[at(j)].copy_from_slice(&ci);
+                out.push(mk(format!("chunks {i} and {j} of {full} exchanged"), b, None));
+                let mut b = body.clone();
+                b[at(j)].copy_from_slice(&ci);
+                out.push(mk(format!("chunk {i} repeated in the place of chunk {j} (of {full})"), b, None));
+            }
+        }
         Family::StreamLevel => {
             let stream = model::packet(18, &body);
             // the byte stream cut short without correcting the packet header
@@ -605,9 +653,26 @@ pub fn containers(quick: bool) -> Vec<Container> {
             }
         }
     }
+    // several hundred chunks (the chunk index reaches its second octet)
+    for (sym, aead) in if quick { vec![(7u8, 2u8), (9, 1)] } else { vec![(7u8, 1u8), (7, 2), (9, 3), (8, 2), (9, 1)] } {
+        for inner_len in if quick { vec![64 * 258 + 5] } else { vec![64 * 256, 64 * 258 + 5, 64 * 515] } {
+            for by_library in [true, false] {
+                v.push(Container { v2: true, sym, aead, chunk: 0, inner_len, by_library, streaming: false });
+            }
+        }
+    }
+    // SEIPDv1 in streaming mode around the point where the stream ends exactly with a refill of
+    // the 8 KiB buffer (8192 minus the 22 octets held back for the MDC)
+    for sym in if quick { vec![7u8] } else { vec![7u8, 3, 9] } {
+        for inner_len in if quick { vec![8169usize, 8170, 8171, 16340] } else { (8160..=8180).chain([16339, 16340, 16341, 24510]).collect() } {
+            for by_library in [true, false] {
+                v.push(Container { v2: false, sym, aead: 0, chunk: 0, inner_len, by_library, streaming: true });
+            }
+        }
+    }
     // SEIPDv1
     for sym in if quick { vec![7u8, 3] } else { vec![7u8, 9, 3, 2, 10] } {
-        for inner_len in if quick { vec![8usize, 9, 29, 30, 31, 100] } else { vec![8usize, 9, 15, 16, 17, 29, 30, 31, 100, 8170, 8192, 8194] } {
+        for inner_len in if quick { vec![8usize, 9, 29, 30, 31, 100] } else { vec![8usize, 9, 15, 16, 17, 29, 30, 31, 100, 8192, 8194] } {
             for by_library in [true, false] {
                 for streaming in [false, true] {
                     v.push(Container {
@@ -644,6 +709,20 @@ pub fn check(ctx: &Ctx) {
                     consumer,
                 });
             }
+        }
+        if c.inner_len > 1000 {
+            // large containers: the deviations that do not need every position
+            for family in [Family::SparseFlips, Family::ChunkSwaps, Family::Appends] {
+                if family == Family::ChunkSwaps && !c.v2 {
+                    continue;
+                }
+                for level in [0u8, 1] {
+                    for consumer in [0u8, 5, 7, 8] {
+                        cases.push(Case { c: *c, family, level, consumer });
+                    }
+                }
+            }
+            continue;
         }
         let small = c.inner_len <= 2 * (1usize << (c.chunk as usize + 6)) + 1 && c.inner_len <= 300;
         for family in [
@@ -694,7 +773,7 @@ pub fn check(ctx: &Ctx) {
     ctx.run_space(
         "tampered_containers",
         true,
-        "authentic containers (library-made and model-made; SEIPDv2 cipher x AEAD x chunk 64B(/128B) x plaintext lengths around 0,1,2(,3,4) chunks, plus 4 KiB (512 B, 64 KiB) chunk sizes with short plaintexts; SEIPDv1 ciphers x lengths x CheckFirst/Streaming) x deviation family {every single-bit flip of the whole body, every truncation length, 1..17 appended octets, header octets x all 256 values + salt octets, all chunk sequences of length <= n+2 over own chunks/final tag + first chunk/final tag of a second message under the same session key, stream cut at every offset / trailing data} x consumer {read_to_end, read(1/15/16/17/64/80/8192), fill_buf+consume} x level {packet::StreamDecryptor, Message::decrypt_the_ring(session key)}; evaluations = decrypt attempts. Oracle: reading ends in an error unless the container is byte-identical to an authentic one; SEIPDv1 CheckFirst releases nothing; SEIPDv2 releases only a prefix of the true plaintext.",
+        "authentic containers (library-made and model-made; SEIPDv2 cipher x AEAD x chunk 64B(/128B) x plaintext lengths around 0,1,2(,3,4) chunks, plus 4 KiB (512 B, 64 KiB) chunk sizes with short plaintexts; SEIPDv1 ciphers x lengths x CheckFirst/Streaming; SEIPDv2 containers of 256..515 chunks and SEIPDv1 streaming-mode containers whose length is 8170k-1, 8170k, 8170k+1 (the stream ending exactly with a refill of the 8 KiB buffer; thorough every length 8160..8180) with flips in the first / middle / last 24 octets, chunk exchanges / repeats at distances 1, 255, 256, 257, 512, and appended octets) x deviation family {every single-bit flip of the whole body, every truncation length, 1..17 appended octets, header octets x all 256 values + salt octets, all chunk sequences of length <= n+2 over own chunks/final tag + first chunk/final tag of a second message under the same session key, stream cut at every offset / trailing data} x consumer {read_to_end, read(1/15/16/17/64/80/8192), fill_buf+consume} x level {packet::StreamDecryptor, Message::decrypt_the_ring(session key)}; evaluations = decrypt attempts. Oracle: reading ends in an error unless the container is byte-identical to an authentic one; SEIPDv1 CheckFirst releases nothing; SEIPDv2 releases only a prefix of the true plaintext.",
         cases.into_par_iter(),
         run,
     );
